@@ -165,7 +165,73 @@ def _expand_trig_args(expr):
     return expr
 
 
-def substitute(expr, gens=None, cos_nonneg=()):
+def _perfect_square_root(n, gens, cos_nonneg, domain, seed=0):
+    """If the radicand `n` (polynomial in the generators) is, modulo the trig relations, a perfect
+    square q^2 with q of constant sign on the domain, return sign*q (so that sqrt(n) = |q|)."""
+    try:
+        trig_syms = [g for pair in gens.trig.values() for g in pair]
+        used = [g for g in trig_syms if n.has(g)]
+        if used:
+            cs = [c for (_, c) in gens.trig.values() if n.has(c) or True]
+            ss = [s_ for (s_, _) in gens.trig.values()]
+            others = sorted(n.free_symbols - set(cs) - set(ss), key=lambda x: x.name)
+            Rg, *_ = _ring(cs + ss + others, sp.QQ, order=sp.polys.orderings.lex)
+            pn = Rg.from_expr(n)
+            rels = [Rg.from_expr(c ** 2 + s_ ** 2 - 1) for (s_, c) in gens.trig.values()]
+            # candidates: monomials in the cosines declared non-negative (sign known: +)
+            import itertools
+            cpos = [gens.trig[a][1] for a in cos_nonneg if a in gens.trig]
+            cands = list(cpos) + [a_ * b_ for a_, b_ in itertools.combinations_with_replacement(cpos, 2)]
+            for q in cands:
+                if (pn - Rg.from_expr(q) ** 2).rem(rels) == 0:
+                    return q
+            n_red = pn.rem(rels).as_expr()
+        else:
+            n_red = n
+        coeff, factors = sp.factor_list(n_red)
+        if coeff <= 0 or any(m % 2 for _, m in factors) or not factors:
+            return None
+        rc = sp.sqrt(coeff)
+        if not rc.is_rational:
+            return None
+        q = rc * sp.Mul(*[f ** (m // 2) for f, m in factors])
+        # sign of q on the domain
+        back = {}
+        for arg, (sg, cg) in gens.trig.items():
+            back[sg] = sp.sin(arg)
+            back[cg] = sp.cos(arg)
+        back[PI] = sp.pi
+        q_real = q.xreplace(back)
+        # structural: product of powers of cos of declared non-negative-cosine angles and positive symbols
+        sign = None
+        ok_struct = True
+        for f, m in factors:
+            fr = f.xreplace(back)
+            if any(fr == sp.cos(a) for a in cos_nonneg) or fr.is_positive:
+                continue
+            ok_struct = False
+        if ok_struct:
+            sign = 1
+        else:
+            from . import nonzero
+            from .claims import CONST_BOX
+            box = dict(CONST_BOX)
+            for kk, vv in (domain or {}).items():
+                if isinstance(vv, tuple) and vv[0] != vv[1]:
+                    box[kk] = vv
+            vz = nonzero.check_nonzero(q_real, box, seed=seed)
+            if vz.status == "proved":
+                r = refute(q_real, box, seed, 1)
+                if r is not None:
+                    sign = 1 if r[1] > 0 else -1
+        if sign is None:
+            return None
+        return sign * q
+    except Exception:
+        return None
+
+
+def substitute(expr, gens=None, cos_nonneg=(), domain=None):
     """Replace tan, sin, cos, sqrt-powers and pi by polynomial generators.
 
     `cos_nonneg`: angles whose cosine is >= 0 on the domain (a stated side
@@ -213,20 +279,28 @@ def substitute(expr, gens=None, cos_nonneg=()):
                 if hit is not None:
                     rep[e] = hit ** e.exp.p
                     continue
+                q = _perfect_square_root(n, gens, cos_nonneg, domain)
+                if q is not None:
+                    rep[e] = q ** e.exp.p
+                    continue
                 w = gens.rad_gen(n)
                 rep[e] = w ** e.exp.p
             else:
+                q = _perfect_square_root(sp.expand(n * d), gens, cos_nonneg, domain)
+                if q is not None:
+                    rep[e] = (q / d) ** e.exp.p
+                    continue
                 w = gens.rad_gen(sp.expand(n * d))
                 rep[e] = (w / d) ** e.exp.p
         expr = expr.xreplace(rep)
     return expr, gens
 
 
-def normal_form(expr, gens=None, extra_relations=(), cos_nonneg=(), full=False):
+def normal_form(expr, gens=None, extra_relations=(), cos_nonneg=(), full=False, domain=None):
     """Return (remainder PolyElement, ring) of the numerator of `expr`
     (with full=True: (numerator remainder, reduced denominator, ring, Generators))."""
-    sub, gens = substitute(expr, gens, cos_nonneg)
-    extra_sub = [substitute(r, gens, cos_nonneg)[0] for r in extra_relations]
+    sub, gens = substitute(expr, gens, cos_nonneg, domain)
+    extra_sub = [substitute(r, gens, cos_nonneg, domain)[0] for r in extra_relations]
     free = set(sub.free_symbols)
     for r in list(gens.rad) + extra_sub:
         free |= r.free_symbols
@@ -282,7 +356,7 @@ def check_zero(expr, domain=None, seed=0, n_points=3, extra_relations=(), cos_no
             v.time_s = time.time() - t0
             return v
     try:
-        rem, _ = normal_form(expr, extra_relations=extra_relations, cos_nonneg=cos_nonneg)
+        rem, _ = normal_form(expr, extra_relations=extra_relations, cos_nonneg=cos_nonneg, domain=domain)
     except Exception as exc:  # conversion outside the expression class
         return Verdict("undecided", "field-nf", time.time() - t0, "normal form failed: %r" % (exc,))
     if rem == 0:
